@@ -464,8 +464,8 @@ def build_case(seg, rec, root):
     if bm:
         vers = [gopt(gdata(list(bytes.fromhex(vhex(v))))) if v["exists"] or v.get("has_want") else "None" for v in pub]
     keep = [str(P(p)) for p in rec.get("keep") or []]
-    coq = "(CTrace 1 %s %s %s %s %s %s)%%N" % (
-        glist(keep), glist(ents), trace_term, gb(bm), glist(lens), glist(vers))
+    coq = "(CTrace 1 %s %s %s %s %s %s %s)%%N" % (
+        glist(keep), glist(ents), trace_term, gb(bm), gb(not rec.get("unordered")), glist(lens), glist(vers))
     return coq, bm, pid
 
 
@@ -508,6 +508,8 @@ def main():
                 msgs.append(("save-error", "save %s of %s failed: %s" % (v.get("label"), rec["name"], v["err"])))
         cls = list(rec.get("classes") or [])
         cls.append("byte-mode" if bm else "chunk-mode")
+        if rec.get("unordered"):
+            cls.append("concurrent-saves")
         if rec.get("reader_distinct", 0) > 1:
             cls.append("reader-saw-several-versions")
         if any(op[0] == "U" for op in seg.ops):
